@@ -126,9 +126,14 @@ func runC14(r *Run) {
 		KV{K: "s", V: VStr("str")}, KV{K: "e", V: VStr("")}, KV{K: "t", V: VBool(true)}, KV{K: "f", V: VBool(false)},
 		KV{K: "n", V: VInt("int", 7)}, KV{K: "z", V: VInt("int", 0)}, KV{K: "z8", V: VInt("int8", 0)}, KV{K: "u", V: VInt("uint16", 3)},
 		KV{K: "fl", V: Val{K: "float64", F: 1.5}}, KV{K: "nil", V: VNil()}, KV{K: "list", V: VList("", VStr("a"), VStr("b"))},
-		KV{K: "cls", V: VStr("c1 c2")}, KV{K: "css", V: VStr("color: blue; padding:1px")}, KV{K: "fs", V: VStr("12px")}, KV{K: "m", V: VMap(KV{K: "k", V: VStr("mk")})},
+		KV{K: "cls", V: VStr("c1 c2")}, KV{K: "css", V: VStr("color: blue; padding:1px")}, KV{K: "fs", V: VStr("12px")}, KV{K: "m", V: VMap(KV{K: "k", V: VStr("mk")}, KV{K: "is-open", V: VBool(true)}, KV{K: "is-closed", V: VBool(false)}, KV{K: "a b", V: VStr("sp")})},
+		KV{K: "lm", V: VList("", VMap(KV{K: "on", V: VBool(true)}), VMap(KV{K: "on", V: VBool(false)}))},
+		KV{K: "not", V: VStr("kw")}, KV{K: "in", V: VInt("int", 0)}, KV{K: "let", V: VBool(true)},
 	).Normalize()
-	paths := []string{"s", "e", "t", "f", "n", "z", "z8", "u", "fl", "nil", "list", "cls", "css", "fs", "m.k", "m.zz", "zz"}
+	// plain paths, and paths only the path resolver can follow (a hyphenated key, a dotted numeric index, a name
+	// that is a keyword of the expression language)
+	paths := []string{"s", "e", "t", "f", "n", "z", "z8", "u", "fl", "nil", "list", "cls", "css", "fs", "m.k", "m.zz", "zz",
+		"m.is-open", "m.is-closed", "lm.0.on", "lm.1.on", "list.0", "lm[0].on", "not", "in", "let"}
 	names := []string{"title", "href", "class", "style", "data-x", "id", "disabled"}
 	lits := []Val{VStr("red"), VStr(""), VBool(true), VBool(false), VInt("int", 12), VInt("int", 0)}
 	mkObj := func(key string) c14Attr {
